@@ -68,6 +68,11 @@ def mk(kind="list", n: int = 2):
         return list(range(n))
     if kind == "dict":
         return {"k%d" % i: i for i in range(n)}
+    if kind == "idict":
+        # keys that are not text, a tuple among the members
+        return {1: "one", 2: (n, n + 1), (3, 4): [n]}
+    if kind == "bigbytes":
+        return bytes(range(256)) * max(1, n)
     if kind == "udict":
         # keys deliberately not in sorted order, one level nested (insertion order is part of what a dictionary is)
         return {"zeta": 0, "alpha": {"y": n, "b": 1}, "mid": list(range(n))}
@@ -149,6 +154,12 @@ def optint(x, y: int = None):
 def optfb(x, f: float = None, b: bool = None):
     _log("optfb")
     return "%s|%s|%s" % (_r(x), _r(f), _r(b))
+
+
+def scale(x, f: float = 1.0, t: str = 0):
+    """annotations and defaults of different types: the annotation decides how a textual argument is converted"""
+    _log("scale")
+    return "%s|%s|%s" % (_r(x), _r(f), _r(t))
 
 
 def unann(x, y=3):
@@ -396,7 +407,7 @@ def after3(x):
 
 
 FIRST = [one, lit, num, flt, mk, firstcat]
-DATA = [add, mulf, flagged, pair, none_default, optint, optfb, unann, cat, ident, withctx, ctxvar, sub, subin, nocache, recache, ctxmut, boom, boom0, needs,
+DATA = [add, mulf, flagged, pair, none_default, optint, optfb, scale, unann, cat, ident, withctx, ctxvar, sub, subin, nocache, recache, ctxmut, boom, boom0, needs,
         push, setkey, dfcol, deepmut, argmut, after1, after2, after3]
 STATE = [getvar, tag, mutvar]
 ATTRS = {"attr_up": dict(ABC="abc"), "attr_low": dict(abc="x"), "vol": dict(volatile=True),
